@@ -86,6 +86,7 @@ func zzvParse(data []byte) (out zzvParseOut) {
 // damaged file.
 func zzvLenient(data []byte) map[string]map[uint64]bool {
 	out := map[string]map[uint64]bool{}
+	raws := map[string]map[string]bool{}
 	if len(data) < 64 {
 		return out
 	}
@@ -105,11 +106,23 @@ func zzvLenient(data []byte) map[string]map[uint64]bool {
 			if nl == 0 || int64(off)+16+int64(nl) > int64(len(data)) {
 				break
 			}
-			name := ref.ExpandStack(string(data[off+16 : off+16+nl]))
+			raw := string(data[off+16 : off+16+nl])
+			name := ref.ExpandStack(raw)
 			if out[name] == nil {
 				out[name] = map[uint64]bool{}
 			}
-			out[name][binary.LittleEndian.Uint64(data[off:])] = true
+			v := binary.LittleEndian.Uint64(data[off:])
+			// several stored names decoding alike: any sum of their values is legitimate
+			for old := range out[name] {
+				if raws[name] != nil && !raws[name][raw] {
+					out[name][old+v] = true
+				}
+			}
+			if raws[name] == nil {
+				raws[name] = map[string]bool{}
+			}
+			raws[name][raw] = true
+			out[name][v] = true
 			off = binary.LittleEndian.Uint32(data[off+12:])
 		}
 	}
@@ -151,7 +164,13 @@ func (c *zzvC06) check(desc string, data []byte) {
 		}
 		want := map[string]uint64{}
 		for n, v := range cf.Values {
-			want[ref.ExpandStack(n)] = v
+			// distinct stored names may decode alike: they count the same stack
+			k := ref.ExpandStack(n)
+			if want[k]+v < v {
+				want[k] = ^uint64(0)
+			} else {
+				want[k] += v
+			}
 		}
 		if len(want) != len(out.f.Count) {
 			c.res.Violate("counts-differ", fmt.Sprintf("library returns %d counters, reference %d: %s", len(out.f.Count), len(want), desc), map[string]any{"case": desc})
@@ -214,6 +233,7 @@ func zzvBases() map[string][]string {
 		"three":       {k1, k2, "a"},
 		"stack":       {"s\npkg/x.f:+1,+0x1", "s\npkg/x.f:+1,+0x1\n\".g:+2,+0x2"},
 		"stack-coll":  {"s\npkg/x.f:+1,+0x1\n\".g:+2,+0x2"},
+		"stack-alias": {"s\npkg/a.f:+1,+0x10\npkg/a.g:+2,+0x20", "s\npkg/a.f:+1,+0x10\n\".g:+2,+0x20", "ordinary"},
 		"big":         {zzvBig('n'), "a"},
 		"nul":         {"a\x00b", "c:{a,b}"},
 	}
